@@ -24,6 +24,7 @@ macro_rules! dispatch {
             "C09" => $f(props::c09::C09, $($arg),*),
             "C10" => $f(props::c10::C10, $($arg),*),
             "C11" => $f(props::c11::C11, $($arg),*),
+            "C12" => $f(props::c12::C12, $($arg),*),
             "C13" => $f(props::c13::C13, $($arg),*),
             "C14" => $f(props::c14::C14, $($arg),*),
             "C15" => $f(props::c15::C15, $($arg),*),
@@ -81,7 +82,7 @@ fn main() {
                 }
                 i += 1;
             }
-            let evidence = evidence.unwrap_or_else(|| verif_root().join("evidence").join(format!("{}.json", id)));
+            let evidence = evidence.unwrap_or_else(|| std::env::var("VERIF_EVIDENCE_DIR").map(PathBuf::from).unwrap_or_else(|_| verif_root().join("evidence")).join(format!("{}.json", id)));
             let ra = RunArgs { tier, seed, evidence, scale };
             dispatch!(id.as_str(), run_property, ra)
         }
